@@ -5,7 +5,7 @@ from ..facts import Module
 from . import kdflib
 
 LEVEL = "other"
-MAP = {"F": "R-C14-F", "BLOCKS": "R-C14-BLOCKS"}
+MAP = {"F": "R-C14-F", "BLOCKS": "R-C14-BLOCKS", "SMALL": "R-C14-SMALL"}
 
 
 def run(ck, build):
@@ -14,6 +14,9 @@ def run(ck, build):
             "U(j+1) = PRF(P, U(j)), T ^= U(j+1), count - 1: count PRF evaluations in total")
     ck.rule("R-C14-BLOCKS", "block number starts at 1 and increases by one per block; full blocks are produced in place at the output cursor (out += 32, outlen -= 32, only when >= 32 remain); the last "
             "partial block goes through a local T, exactly the remaining 1..31 bytes are copied, T and U are wiped; exactly outlen bytes are written in total")
+    ck.rule("R-C14-SMALL", "independent of the loop structure: tinyjambu_pbkdf2 as straight paths for count in {0,1,2,3,5} x EVERY outlen 0..100 (count and length concrete; data symbolic; HMAC "
+            "uninterpreted): per block the PRF transcript start(P); update(S); update(INT32BE(i)); finalize, then max(count,1) - 1 chained PRFs over the previous 32-byte output; the bytes "
+            "written are the XOR of the chain, exactly out[0, outlen)")
     ck.rule("R-C14-PRF", "premise: the PRF underneath is the documented TinyJAMBU-HMAC over the documented hash (all rules of C12, C10 and C11 re-run on the same IR)")
     ck.not_decided += ["derived key values; block numbers beyond 2^32 (INT32BE truncation is inherent to RFC 8018)", "HMAC itself is C12"]
     mod = Module(build.facts("H", "N0"))
@@ -21,7 +24,23 @@ def run(ck, build):
 
     def ob(cond, rule, fn, cons, ok, bad, where=None):
         return ck.ob(cond, MAP[rule], fn, cons, ok, bad, where=where)
-    kdflib.check_pbkdf2(ob, mod, "H/N0")
+    small_broken = None
+    try:
+        kdflib.check_pbkdf2_small(ob, mod, "H/N0", thorough=(ck.tier == "thorough"))
+    except Broken as e:
+        small_broken = e
+    snap = ck.snapshot()
+    try:
+        kdflib.check_pbkdf2(ob, mod, "H/N0")
+    except Broken as e:
+        ck.rollback(snap)
+        if not ck.violations:
+            raise
+        # the small-length rule has refuted concrete cases; that the per-class rule does not follow this code's shape does not take them back
+        ck.note("per-class rule for tinyjambu_pbkdf2 not decided: %s" % str(e)[:200])
+    else:
+        if small_broken is not None:
+            ck.note("small-length rule for tinyjambu_pbkdf2 not decided: %s" % str(small_broken)[:200])
     from . import hashlib
     kdflib.hmac_premises(ck, mod, "R-C14-PRF")
     hashlib.premises(ck, mod, "R-C14-PRF")
